@@ -2988,3 +2988,536 @@ func sprintfHasIntArg(call *ssa.Call) bool {
 	}
 	return found
 }
+
+// ------------------------------------------------------------------------------ R16m
+
+// c16AuthenticodeCallers: which callers of TimestampAndMarshal produce Authenticode signatures
+// (the token goes in under Microsoft's OID 1.3.6.1.4.1.311.3.3.1) and which produce CMS ones.
+var c16AuthenticodeCallers = map[string]bool{
+	"lib/authenticode": true,  // PE, MSI, CAB, PowerShell, catalogs: SpcIndirectData / CTL content
+	"signers/cat":      true,  // re-signing an existing catalog
+	"lib/fruit/csblob": false, // Apple code signatures: RFC 3161 unauthenticated attribute
+	"lib/fruit/xar":    false,
+	"lib/signjar":      false,
+}
+
+// tokenAttachedUnderTheFormatsOID: TimestampAndMarshal attaches the token with the Authenticode OID
+// exactly when its caller says so; the flag is a positional boolean today, and may become a field
+// of a parameter struct - a field a call site leaves out is false. Every caller passes the constant
+// its format requires.
+func tokenAttachedUnderTheFormatsOID(p *Prog) (out []gFinding) {
+	tm := p.Func("lib/pkcs9.TimestampAndMarshal")
+	if tm == nil {
+		return []gFinding{{Key: "pkcs9.TimestampAndMarshal", Pos: "-", OK: false, Detail: "function not found"}}
+	}
+	// the input that selects AddStampToSignedAuthenticode
+	var flagParam int
+	var flagPath []int
+	found := false
+	for _, ci := range p.callsIn(tm, "lib/pkcs9.AddStampToSignedAuthenticode") {
+		for _, b := range tm.Blocks {
+			ifi, ok := b.Instrs[len(b.Instrs)-1].(*ssa.If)
+			if !ok || len(b.Succs) != 2 {
+				continue
+			}
+			// the true side leads to the call, the false side does not
+			if !(b.Succs[0] == ci.Block() || b.Succs[0].Dominates(ci.Block())) || b.Succs[1].Dominates(ci.Block()) {
+				continue
+			}
+			if pi, path, ok := inputOf(tm, ifi.Cond); ok && isBool(ifi.Cond.Type()) {
+				flagParam, flagPath, found = pi, path, true
+			}
+		}
+	}
+	if !found {
+		// the attaching function chosen into a variable: the edge that carries the Authenticode one
+		for _, b := range tm.Blocks {
+			for _, in := range b.Instrs {
+				ph, ok := in.(*ssa.Phi)
+				if !ok {
+					continue
+				}
+				for ei, e := range ph.Edges {
+					f, ok := e.(*ssa.Function)
+					if !ok || p.FName(f) != "lib/pkcs9.AddStampToSignedAuthenticode" {
+						continue
+					}
+					from := b.Preds[ei]
+					for _, cb := range tm.Blocks {
+						ifi, ok := cb.Instrs[len(cb.Instrs)-1].(*ssa.If)
+						if !ok || len(cb.Succs) != 2 {
+							continue
+						}
+						viaTrue := cb.Succs[0] == from || cb.Succs[0].Dominates(from) || (cb == from && cb.Succs[0] == b)
+						viaFalse := cb.Succs[1] == from || cb.Succs[1].Dominates(from)
+						if !viaTrue || viaFalse {
+							continue
+						}
+						if pi, path, ok := inputOf(tm, ifi.Cond); ok && isBool(ifi.Cond.Type()) {
+							flagParam, flagPath, found = pi, path, true
+						}
+					}
+				}
+			}
+		}
+	}
+	if !found {
+		return []gFinding{{Key: "TimestampAndMarshal Authenticode switch", Pos: p.Pos(tm.Pos()), OK: false, Detail: "the input that selects AddStampToSignedAuthenticode was not recognised"}}
+	}
+	n := map[string]int{}
+	for _, fn := range p.Funcs {
+		for _, ci := range callsOf(fn) {
+			if ci.Common().StaticCallee() != tm {
+				continue
+			}
+			pkg := ""
+			if pk := pkgOf(fn); pk != nil {
+				pkg = p.Rel(pk.Path())
+			}
+			n[pkg]++
+			key := fmt.Sprintf("%s passes the Authenticode switch its format requires#%d", p.FName(fn), n[pkg])
+			want, known := c16AuthenticodeCallers[pkg]
+			if !known {
+				out = append(out, gFinding{Key: key, Pos: p.Pos(ci.Pos()), OK: false, Detail: "a caller of TimestampAndMarshal in a package the table does not list: say in c16AuthenticodeCallers which OID its format uses"})
+				continue
+			}
+			var got, isConst bool
+			if len(flagPath) == 0 {
+				if flagParam < len(ci.Common().Args) {
+					got, isConst = boolConst(ci.Common().Args[flagParam])
+				}
+			} else if flagParam < len(ci.Common().Args) {
+				arg := ci.Common().Args[flagParam]
+				if k, isK := arg.(*ssa.Const); isK && k.Value == nil {
+					got, isConst = false, true
+				} else if v := actualOf(ci.Common(), flagParam, flagPath); v != nil {
+					got, isConst = boolConst(v)
+				} else if l, ok := arg.(*ssa.UnOp); ok && l.Op == token.MUL {
+					if _, isLit := l.X.(*ssa.Alloc); isLit {
+						got, isConst = false, true // the literal leaves the field out
+					}
+				}
+			}
+			out = append(out, gFinding{Key: key, Pos: p.Pos(ci.Pos()), OK: isConst && got == want,
+				Detail: fmt.Sprintf("this caller's format needs the token attached under %s, but the switch it passes is %v (constant: %v): the token bytes are intact but sit under the wrong attribute OID, where the format's other consumers do not look", map[bool]string{true: "the Authenticode OID", false: "the CMS OID"}[want], got, isConst)})
+		}
+	}
+	return out
+}
+
+// ------------------------------------------------------------------------------ R16n
+
+var inPlaceSliceRoutines = []string{"slices.Delete[", "slices.DeleteFunc[", "slices.Compact[", "slices.CompactFunc[", "slices.Reverse[", "slices.Sort[", "slices.SortFunc[", "slices.SortStableFunc[", "slices.Insert[", "slices.Replace["}
+
+// decodedListsNotEditedInPlace: lib/pkcs7 and lib/pkcs9 hold decoded structures that are handed
+// back, embedded and re-encoded byte for byte. A library routine that edits its slice argument in
+// place (slices.DeleteFunc shifts the kept elements down and zeroes the tail, sort.Slice permutes)
+// changes the caller's structure through the shared backing array even when the slice header was
+// passed by value. Such a routine may only be given a slice the function made itself (make, append
+// to nil, slices.Clone).
+func decodedListsNotEditedInPlace(p *Prog) (out []gFinding) {
+	var fns []*ssa.Function
+	for _, pk := range []string{"lib/pkcs7", "lib/pkcs9", "inplace"} { // inplace: the control package
+		for _, fn := range p.pkgFuncs(pk) {
+			fns = append(fns, withClosures(fn)...)
+		}
+	}
+	var fresh func(v ssa.Value, d int) bool
+	fresh = func(v ssa.Value, d int) bool {
+		if d > 8 {
+			return false
+		}
+		switch x := v.(type) {
+		case *ssa.MakeSlice:
+			return true
+		case *ssa.Const:
+			return x.IsNil()
+		case *ssa.Slice:
+			if a, ok := x.X.(*ssa.Alloc); ok {
+				_ = a
+				return true // a slice of a local array
+			}
+			return fresh(x.X, d+1)
+		case *ssa.Phi:
+			for _, e := range x.Edges {
+				if !fresh(e, d+1) {
+					return false
+				}
+			}
+			return true
+		case *ssa.Call:
+			if bi, ok := x.Call.Value.(*ssa.Builtin); ok && bi.Name() == "append" {
+				return fresh(x.Call.Args[0], d+1)
+			}
+			if sc := x.Call.StaticCallee(); sc != nil {
+				name := sc.String()
+				if strings.HasPrefix(name, "slices.Clone[") || strings.HasPrefix(name, "bytes.Clone") || strings.HasPrefix(name, "slices.Collect[") {
+					return true
+				}
+				for _, r := range inPlaceSliceRoutines {
+					if strings.HasPrefix(name, r) {
+						return fresh(x.Call.Args[0], d+1)
+					}
+				}
+			}
+		case *ssa.UnOp:
+			if a, ok := x.X.(*ssa.Alloc); ok && x.Op == token.MUL {
+				for _, r := range *a.Referrers() {
+					if st, ok := r.(*ssa.Store); ok && st.Addr == ssa.Value(a) && !fresh(st.Val, d+1) {
+						return false
+					}
+				}
+				return true
+			}
+		}
+		return false
+	}
+	for _, fn := range fns {
+		n := 0
+		for _, ci := range callsOf(fn) {
+			name := ""
+			if sc := ci.Common().StaticCallee(); sc != nil {
+				name = sc.String()
+			}
+			hit := false
+			for _, r := range inPlaceSliceRoutines {
+				if strings.HasPrefix(name, r) {
+					hit = true
+				}
+			}
+			var arg ssa.Value
+			if hit && len(ci.Common().Args) > 0 {
+				arg = ci.Common().Args[0]
+			}
+			switch name {
+			case "sort.Slice", "sort.SliceStable", "sort.Sort", "sort.Stable":
+				hit = true
+				arg = ci.Common().Args[0]
+				if mi, ok := arg.(*ssa.MakeInterface); ok {
+					arg = mi.X
+				}
+			}
+			if !hit || arg == nil {
+				continue
+			}
+			n++
+			out = append(out, gFinding{Key: fmt.Sprintf("%s in-place slice routine#%d works on a slice of its own", p.FName(fn), n), Pos: p.Pos(ci.Pos()), OK: fresh(arg, 0),
+				Detail: "a routine that edits its slice argument in place (" + strings.SplitN(name, "[", 2)[0] + ") is given a slice that belongs to a decoded structure (a parameter, a receiver or a field): the elements are shifted or permuted in the caller's backing array, so merely parsing or verifying the structure changes what is later embedded and re-encoded"})
+		}
+	}
+	return out
+}
+
+// ------------------------------------------------------------------------------ R17v
+
+// keptDirectoryHasItsOwnOffset: the APK digest is computed "as if the central directory began where
+// the signing block goes" by overriding Directory.DirLoc for the hashing step. The Directory that is
+// kept in the Digest for the signing step must carry the archive's real directory offset again
+// (Digest.Sign computes the span of the old signing block and the place of the end record from it):
+// every store that overrides DirLoc on that object is followed, on every path to a successful
+// return, by a store that puts back a value loaded from DirLoc before the override; a copy made by
+// a helper whose DirLoc is overridden may be hashed but not kept.
+func keptDirectoryHasItsOwnOffset(p *Prog) (out []gFinding) {
+	for _, fn := range p.pkgFuncs("signers/apk") {
+		// the Directory stored into a Digest literal
+		var kept ssa.Value
+		var at ssa.Instruction
+		for _, b := range fn.Blocks {
+			for _, in := range b.Instrs {
+				st, ok := in.(*ssa.Store)
+				if !ok {
+					continue
+				}
+				if tn, f, base := p.fieldAddr(st.Addr); tn == "signers/apk.Digest" && f == "inz" {
+					if _, isNew := base.(*ssa.Alloc); isNew {
+						kept, at = st.Val, st
+					}
+				}
+			}
+		}
+		if kept == nil {
+			continue
+		}
+		key := p.FName(fn) + " keeps a directory with its own offset"
+		isDirLoc := func(addr ssa.Value, obj ssa.Value) bool {
+			tn, f, base := p.fieldAddr(addr)
+			return tn == "lib/zipslicer.Directory" && f == "DirLoc" && base == obj
+		}
+		// a copy handed back by a helper of the package
+		if call, ok := kept.(*ssa.Call); ok {
+			if h := call.Call.StaticCallee(); h != nil && h.Pkg == fn.Pkg && h.Blocks != nil {
+				bad := false
+				for _, r := range returnsOf(h) {
+					cp, isCopy := retVal(r, 0).(*ssa.Alloc)
+					if !isCopy {
+						continue
+					}
+					for _, hb := range h.Blocks {
+						for _, hin := range hb.Instrs {
+							if st, ok := hin.(*ssa.Store); ok && isDirLoc(st.Addr, cp) {
+								bad = true
+							}
+						}
+					}
+				}
+				out = append(out, gFinding{Key: key, Pos: p.Pos(at.Pos()), OK: !bad,
+					Detail: "the Directory kept in the Digest is a copy whose DirLoc was overridden (" + p.FName(h) + "): Digest.Sign takes it for the archive's real directory offset, so on an APK that already has a signing block the old block is not removed and the end record is written at the wrong place"})
+				continue
+			}
+		}
+		var overrides, restores []*ssa.Store
+		for _, b := range fn.Blocks {
+			for _, in := range b.Instrs {
+				st, ok := in.(*ssa.Store)
+				if !ok || !isDirLoc(st.Addr, kept) {
+					continue
+				}
+				// a restore: the value is a load of this object's DirLoc
+				if l, ok := stripConv(st.Val).(*ssa.UnOp); ok && l.Op == token.MUL && isDirLoc(l.X, kept) {
+					restores = append(restores, st)
+				} else {
+					overrides = append(overrides, st)
+				}
+			}
+		}
+		bad := ""
+		for _, ov := range overrides {
+			del := map[edge]bool{}
+			sameBlock := false
+			for _, rs := range restores {
+				if rs.Block() == ov.Block() && instrIndex(rs) > instrIndex(ov) {
+					sameBlock = true
+				}
+				if rs.Block() != ov.Block() {
+					for _, pb := range rs.Block().Preds {
+						for si, sb := range pb.Succs {
+							if sb == rs.Block() {
+								del[edge{pb.Index, si}] = true
+							}
+						}
+					}
+				}
+				// the load that feeds the restore has to come before the override
+				if l, ok := stripConv(rs.Val).(*ssa.UnOp); ok && reachableAfter(fn, ov, l, nil, nil) {
+					bad = "the value put back was read after the override"
+				}
+			}
+			if sameBlock {
+				continue
+			}
+			seen := reachAfter(fn, ov, del, nil)
+			for _, r := range p.successReturns(fn) {
+				if seen[r.Block().Index] {
+					restoredHere := false
+					for _, rs := range restores {
+						if rs.Block() == r.Block() {
+							restoredHere = true
+						}
+					}
+					if !restoredHere {
+						bad = "a successful return at " + p.Pos(r.Pos()) + " is reached with the override still in place"
+					}
+				}
+			}
+		}
+		out = append(out, gFinding{Key: key, Pos: p.Pos(at.Pos()), OK: bad == "",
+			Detail: "the Directory kept in the Digest still carries the directory offset that was overridden for hashing (" + bad + "): Digest.Sign takes it for the archive's real directory offset, so on an APK that already has a signing block the old block is not removed and the end record is written at the wrong place"})
+	}
+	return out
+}
+
+// ------------------------------------------------------------------------------ R02s
+
+// embeddedBlobsAlwaysChecked: csblob.Verify holds the blobs embedded in the signature (entitlements,
+// DER entitlements, requirements - fields of SigBlob) against the special slots of the code
+// directory. Whether a slot is checked may depend on the slot (no hash, nothing to check) and, for
+// content the caller supplies (Info.plist, resources), on the content being there; it must not
+// depend on an EMBEDDED blob being there: the superblob index that lists them is not signed, so a
+// blob that is dropped from it would otherwise go unnoticed. Decided on the call of the digest
+// helper: when its content argument may be a field of SigBlob (directly, or through a field of a
+// table entry some SigBlob field is stored into), no nil test of that same value lies on every path
+// to the call.
+func embeddedBlobsAlwaysChecked(p *Prog) (out []gFinding) {
+	helper := p.Func("lib/fruit/csblob.hashCheck")
+	if helper == nil {
+		return []gFinding{{Key: "csblob.hashCheck", Pos: "-", OK: false, Detail: "the digest helper was not found"}}
+	}
+	// the content parameter: what is written into the hash
+	content := -1
+	for _, w := range p.callsIn(helper, "(hash.Hash).Write", "(io.Writer).Write") {
+		for i, pa := range helper.Params {
+			if len(w.Common().Args) > 0 && w.Common().Args[0] == ssa.Value(pa) {
+				content = i
+			}
+		}
+	}
+	if content < 0 {
+		return []gFinding{{Key: "csblob.hashCheck content parameter", Pos: p.Pos(helper.Pos()), OK: false, Detail: "the parameter that is hashed was not recognised"}}
+	}
+	isBlobField := func(v ssa.Value) bool {
+		tn, f, _ := p.fieldLoad(v)
+		return tn == "lib/fruit/csblob.SigBlob" && (f == "Entitlement" || f == "EntitlementDER" || f == "RawRequirements")
+	}
+	// fields of other structs of the package that receive an embedded blob somewhere
+	carries := map[string]bool{}
+	for _, fn := range p.pkgFuncs("lib/fruit/csblob") {
+		for _, f := range withClosures(fn) {
+			for _, b := range f.Blocks {
+				for _, in := range b.Instrs {
+					if st, ok := in.(*ssa.Store); ok && isBlobField(st.Val) {
+						if tn, fld, _ := p.fieldAddr(st.Addr); tn != "" && tn != "lib/fruit/csblob.SigBlob" {
+							carries[tn+"."+fld] = true
+						}
+					}
+				}
+			}
+		}
+	}
+	mayBeEmbedded := func(v ssa.Value) bool {
+		if isBlobField(v) {
+			return true
+		}
+		tn, f, _ := p.fieldLoad(v)
+		return tn != "" && carries[tn+"."+f]
+	}
+	sameLoc := func(a, b ssa.Value) bool {
+		if a == b {
+			return true
+		}
+		ta, fa, ba := p.fieldLoad(a)
+		tb, fb, bb := p.fieldLoad(b)
+		return ta != "" && ta == tb && fa == fb && ba == bb
+	}
+	n := 0
+	for _, fn := range p.pkgFuncs("lib/fruit/csblob") {
+		for _, ci := range callsOf(fn) {
+			if ci.Common().StaticCallee() != helper || content >= len(ci.Common().Args) {
+				continue
+			}
+			arg := ci.Common().Args[content]
+			if !mayBeEmbedded(arg) {
+				continue
+			}
+			n++
+			g := Guard{Match: func(f Fact) bool { return f.Kind == NonNil && sameLoc(stripConv(f.V), arg) }}
+			lenG := Guard{Match: func(f Fact) bool {
+				bo, ok := f.V.(*ssa.BinOp)
+				if !ok {
+					return false
+				}
+				call, ok := bo.X.(*ssa.Call)
+				if !ok {
+					return false
+				}
+				bi, ok := call.Call.Value.(*ssa.Builtin)
+				return ok && bi.Name() == "len" && sameLoc(call.Call.Args[0], arg) && isIntConst(bo.Y, 0) &&
+					((bo.Op == token.NEQ || bo.Op == token.GTR) && f.Kind == IsTrue || bo.Op == token.EQL && f.Kind == IsFalse)
+			}}
+			skipped := false
+			for _, gg := range []Guard{g, lenG} {
+				if len(passEdges(fn, gg)) == 0 {
+					continue
+				}
+				if missing, _ := p.unguardedFromEntry(fn, ci, gg); len(missing) == 0 {
+					skipped = true
+				}
+			}
+			out = append(out, gFinding{Key: fmt.Sprintf("%s checks the embedded blob whether or not it is there#%d", p.FName(fn), n), Pos: p.Pos(ci.Pos()), OK: !skipped,
+				Detail: "the digest check of a blob embedded in the signature is made only when that blob is present: the index that lists the blobs is not covered by the signature, so taking the entitlements or the requirements out of it is accepted although the code directory binds them"})
+		}
+	}
+	if n == 0 {
+		out = append(out, gFinding{Key: "csblob embedded blob checks", Pos: p.Pos(helper.Pos()), OK: false, Detail: "no digest check of an embedded blob was recognised (3 confirmed by reading)"})
+	}
+	return out
+}
+
+// ------------------------------------------------------------------------------ R13j
+
+// probedLengthCopiedExactly: pgptools writes a literal-data packet of DEFINITE length when it could
+// probe the input's size (getSize >= 0): the length goes into the packet header before the body. The
+// body that follows must then be exactly that many bytes - io.CopyN with the probed size, whose
+// error (EOF when the file shrank meanwhile) stops the merge before anything is committed. With a
+// plain io.Copy a file that changed between the probe and the copy yields a message whose header
+// lies about its body, and it is renamed over the destination without an error. Decided where the
+// probe is made: from the "size >= 0" edge no successful return is reachable without a CopyN whose
+// count derives from the probed size (in the function itself, or in a helper that is given the size).
+func probedLengthCopiedExactly(p *Prog) (out []gFinding) {
+	probe := p.Func("lib/pgptools.getSize")
+	if probe == nil {
+		return []gFinding{{Key: "pgptools.getSize", Pos: "-", OK: false, Detail: "the size probe was not found"}}
+	}
+	n := 0
+	for _, fn := range p.pkgFuncs("lib/pgptools") {
+		for _, ci := range callsOf(fn) {
+			call, ok := ci.(*ssa.Call)
+			if !ok || call.Call.StaticCallee() != probe {
+				continue
+			}
+			n++
+			S := ssa.Value(call)
+			fromS := func(v ssa.Value) bool { return dependsOnNoCall(v, func(x ssa.Value) bool { return x == S }) }
+			// calls that copy exactly S bytes
+			exact := map[*ssa.BasicBlock]bool{}
+			for _, c2 := range callsOf(fn) {
+				name := p.calleeName(c2.Common())
+				if name == "io.CopyN" && len(c2.Common().Args) == 3 && fromS(c2.Common().Args[2]) {
+					exact[c2.Block()] = true
+					continue
+				}
+				h := c2.Common().StaticCallee()
+				if h == nil || h.Pkg != fn.Pkg || h.Blocks == nil {
+					continue
+				}
+				for k, a := range c2.Common().Args {
+					if k >= len(h.Params) || !fromS(a) {
+						continue
+					}
+					for _, c3 := range p.callsIn(h, "io.CopyN") {
+						if len(c3.Common().Args) == 3 && dependsOnNoCall(c3.Common().Args[2], func(x ssa.Value) bool { return x == ssa.Value(h.Params[k]) }) && errDisposition(c3) != errDropped {
+							exact[c2.Block()] = true
+						}
+					}
+				}
+			}
+			definite := Guard{Match: func(f Fact) bool {
+				bo, ok := f.V.(*ssa.BinOp)
+				if !ok || bo.X != S || !isIntConst(bo.Y, 0) {
+					return false
+				}
+				return (bo.Op == token.GEQ && f.Kind == IsTrue) || (bo.Op == token.LSS && f.Kind == IsFalse)
+			}}
+			edges := passEdges(fn, definite)
+			key := fmt.Sprintf("%s copies exactly the probed length#%d", p.FName(fn), n)
+			if len(edges) == 0 {
+				out = append(out, gFinding{Key: key, Pos: p.Pos(call.Pos()), OK: false, Detail: "the test `size >= 0` that selects the definite-length form was not found in the function that probes the size"})
+				continue
+			}
+			del := map[edge]bool{}
+			for b := range exact {
+				for si := range b.Succs {
+					del[edge{b.Index, si}] = true
+				}
+			}
+			var starts []*ssa.BasicBlock
+			for e := range edges {
+				if t := fn.Blocks[e.from].Succs[e.succ]; !exact[t] {
+					starts = append(starts, t)
+				}
+			}
+			seen := reach(fn, starts, del, nil)
+			bad := ""
+			for _, r := range p.successReturns(fn) {
+				if seen[r.Block().Index] && !exact[r.Block()] {
+					bad = p.Pos(r.Pos())
+				}
+			}
+			out = append(out, gFinding{Key: key, Pos: p.Pos(call.Pos()), OK: bad == "",
+				Detail: "a successful return (" + bad + ") is reachable from the definite-length branch without an io.CopyN of the probed size: the packet header states a length the body is not held to, so an input that shrank or grew after the probe yields a cut-off or overrun message that is committed without an error"})
+		}
+	}
+	if n == 0 {
+		out = append(out, gFinding{Key: "pgptools size probe callers", Pos: p.Pos(probe.Pos()), OK: false, Detail: "no caller of getSize found"})
+	}
+	return out
+}
